@@ -576,6 +576,15 @@ def expand_unit(unit_path, stats=None):
             relpath, kw, name = parts[0], parts[1], parts[2]
             src = load_src(relpath)
             a, b = src.find_item(kw, name)
+            for opt in parts[3:]:
+                if opt.startswith("derive="):
+                    # R5': the listed derives of the item are kept (they must be present on the item in the repo)
+                    want = opt[len("derive="):].split(",")
+                    head = src.text[max(0, a - 400):a]
+                    for w_ in want:
+                        if not re.search(r"derive\([^)]*\b" + re.escape(w_) + r"\b", head):
+                            raise ExtractError(f"{relpath}: {kw} {name} no longer derives {w_}")
+                    out.add("#[derive(" + ", ".join(want) + ")]\n", "rule", "R5-derive", src.line_of(a))
             if "opaque" in parts[3:]:
                 # the type is only passed around in this unit: its fields are hidden from the verifier
                 out.add("#[verifier::external_body]\n", "rule", "opaque", src.line_of(a))
